@@ -5,14 +5,17 @@ From Dagrt Require Import GenLang Lang LangProofs Builder Sched SchedProofs Step
 
 (* the step in which a user function raises (or any other exception escapes): the statements
    before the failing one ran, nothing after it did; afterwards no per-step name is visible, and a
-   persistent variable that none of the executed statements writes holds its value from before
-   the step -- in particular every variable whose writers all depend on the failed call *)
+   persistent variable that none of the executed statements (the failing one included) writes holds
+   its value from before the step -- in particular every variable whose writers all depend on the
+   failed statement.  (The model keeps the store from before the failing statement; the effects of
+   loop iterations it completed before raising are not modelled, hence the failing statement is
+   counted among the writers.) *)
 Theorem C11_state_after_exception : forall F del_guarded keep l1 st l2 s s1 evs1 (user : bool),
   exec_seq F del_guarded l1 s nil = (s1, evs1, BDone) ->
   snd (exec_stmt F del_guarded s1 st) = (if user then OUserExn else OCrash) ->
   let final := cleanup keep (fst (fst (exec_seq F del_guarded (l1 ++ st :: l2) s nil))) in
   Pre keep final /\
-  (forall x, keep x = true -> (forall a, In a l1 -> ~ WL a x) -> final x = s x) /\
+  (forall x, keep x = true -> (forall a, In a (l1 ++ st :: nil) -> ~ WL a x) -> final x = s x) /\
   snd (exec_seq F del_guarded (l1 ++ st :: l2) s nil) = BExn user.
 Proof. exact exn_state. Qed.
 Print Assumptions C11_state_after_exception.
